@@ -45,7 +45,7 @@ RULE = ("every tree of the bounded grammar is built once from fresh lena objects
         "that lies after it or in a sibling branch (something that could interfere), or when the tree "
         "contains an unresolvable formatting key; trees are distinct by construction of the enumeration")
 ASSUMPTIONS = [
-    "static keys are Ka, Kb, Kn.a, Kn.b; values are constants (1, 2, 3, None) or one-field templates '{{k}}_x'",
+    "static keys are Ka, Kb, Kn.a, Kn.b; values are constants (1, '', 3, None) or one-field templates '{{k}}_x'",
     "observations: StoreContext.context, the run-time context after UpdateContextFromStatic, the name "
     "MakeFilename produces, Write.output_directory, Cache._filename, node._get_context()",
     "whether the intersection exported by a Split keeps an empty sub-dictionary, and whether a branch "
@@ -57,10 +57,10 @@ ASSUMPTIONS = [
 NONTRIVIAL_FLOOR = {"quick": 20000, "thorough": 200000}
 BUDGET_S = {"quick": 300, "thorough": 3300}
 
-S_CORE = [["S", "Ka", 1], ["S", "Kb", 2], ["S", "Ka", "{{Kb}}_x"]]
+S_CORE = [["S", "Ka", 1], ["S", "Kb", ""], ["S", "Ka", "{{Kb}}_x"]]
 S_MORE = [["S", "Kn.a", 3], ["S", "Kb", None], ["S", "Kb", "{{Ka}}_x"], ["S", "Kn.b", "{{Kn.a}}_x"]]
 CONSUMER_VARIANTS = [["St"], ["U"], ["M", "Ka"], ["M", "Kb+Ka"], ["W", "Ka"], ["W", "Ka+Kb"], ["C", "Ka"],
-                     ["C", "Kb+Ka"]]
+                     ["C", "Kb+Ka"], ["M", "Kn.b+Kn.a"], ["W0", "Kb"]]
 
 
 # ------------------------------------------------------------------------------------------------
@@ -129,8 +129,8 @@ def _families(tier):
     """(label, family, grammar, depth, n) simplest first."""
     fa_quick = Grammar(S_CORE + S_MORE[:2] + [["O"], ["D"]], br=("t", "bare", "acc", "src"), empties=True)
     fa_thor = Grammar(S_CORE + S_MORE + [["O"], ["D"]], br=("t", "bare", "acc", "src"), empties=True)
-    fb_quick = Grammar(S_CORE + S_MORE[:2])
-    fb_thor = Grammar(S_CORE + S_MORE[:2])
+    fb_quick = Grammar(S_CORE + S_MORE[:2] + S_MORE[3:4])
+    fb_thor = Grammar(S_CORE + S_MORE[:2] + S_MORE[3:4])
     fb_small = Grammar(S_CORE)
     out = []
     if tier == "quick":
@@ -157,10 +157,10 @@ def describe(tier):
     fams = _families(tier)
     return ("families (label = family:depth:number of leaves): %s; family A: leaves over SetContext x%d, "
             "placeholder O, data element D, all node / branch forms incl. empty ones and Source branches, O "
-            "replaced uniformly by each of the 8 consumer variants and pairwise for two placeholders; "
+            "replaced uniformly by each of the %d consumer variants and pairwise for two placeholders; "
             "family B: SetContext leaves only, a consumer of one variant (or none) inserted at every "
             "position of every element list"
-            % (", ".join(f[0] for f in fams), len(fams[0][2].alpha) - 2))
+            % (", ".join(f[0] for f in fams), len(fams[0][2].alpha) - 2, len(CONSUMER_VARIANTS)))
 
 
 NSHARD = {"A:d2:n2": 8, "A:d2:n3": 128, "B:d2:n3": 16, "B:d2:n4": 128, "B:d3:n2": 8, "B:d3:n3": 128}
